@@ -58,6 +58,9 @@ type hookCase struct {
 	// happen and the after-read hook must be told about it.
 	CancelChunk   int `json:"cancel_chunk,omitempty"`
 	CancelBlockMs int `json:"cancel_block_ms,omitempty"`
+	// LateChunks: the reads that deliver these chunks (1-based) also report that their deadline has passed - the
+	// deadline ended the read after the bytes had arrived; an io.Reader may return both. The bytes were read all the same.
+	LateChunks []int `json:"late_chunks,omitempty"`
 }
 
 func scenario(c hookCase) (cli.Scenario, []byte, error) {
@@ -89,6 +92,10 @@ func scenario(c hookCase) (cli.Scenario, []byte, error) {
 		chunks = gen.ChunksFromCuts(n, c.Cuts)
 	}
 	withBytes := c.Terminal == "eof-with-bytes" || c.Terminal == "ioerr-with-bytes"
+	late := map[int]bool{}
+	for _, i := range c.LateChunks {
+		late[i] = true
+	}
 	for i, k := range chunks {
 		g := 0
 		if i < len(c.Gaps) {
@@ -105,6 +112,8 @@ func scenario(c hookCase) (cli.Scenario, []byte, error) {
 			ev = append(ev, xport.Event{Kind: kind, N: k})
 		} else if c.CancelChunk == i+1 && c.CancelBlockMs > 0 {
 			ev = append(ev, xport.Event{Kind: "cancel", N: k, Ms: c.CancelBlockMs})
+		} else if late[i+1] {
+			ev = append(ev, xport.Event{Kind: "timeout", N: k})
 		} else {
 			ev = append(ev, xport.Event{Kind: "data", N: k})
 		}
@@ -338,6 +347,13 @@ func genHook(t *rapid.T, kinds []string) hookCase {
 		c.Address = rapid.SampledFrom(cli.Addresses).Draw(t, "address")
 		if c.PacketConn = rapid.IntRange(0, 3).Draw(t, "packet_conn") == 0; c.PacketConn {
 			c.Address = "udp://localhost:5020"
+		}
+	}
+	if nch := len(c.Cuts) + 1; c.Deliver > 0 && rapid.IntRange(0, 3).Draw(t, "late_reads") == 0 {
+		for i := 1; i <= nch; i++ {
+			if rapid.IntRange(0, 2).Draw(t, "late") == 0 {
+				c.LateChunks = append(c.LateChunks, i)
+			}
 		}
 	}
 	if nch := len(c.Cuts) + 1; c.Deliver > 0 && rapid.IntRange(0, 19).Draw(t, "cancel_in_flight") == 0 {
